@@ -255,8 +255,10 @@ func convert(v BV, p pType) (verdict, string) {
 		switch v.K {
 		case bNum, bStr, bBool:
 			return vCall, cell // by formatting
+		case bArr, bMap, bTime:
+			return vCall, cell // by formatting: the exact text is not specified, that there is one is
 		}
-		return vUnspec, cell // text of null / arrays / times / maps is not specified
+		return vUnspec, cell // text of null is not specified
 	case pBool:
 		switch v.K {
 		case bBool:
@@ -395,6 +397,25 @@ func checkArg(got interface{}, v BV, p pType) string {
 			}
 			if !ok || (!v.Approx && r.Cmp(v.N) != 0) {
 				return bad("rendering does not parse back to the same number")
+			}
+		case bArr, bMap, bTime:
+			// whatever the layout, a formatted array, map or time is not the empty text,
+			// and the texts and truth values in it appear in it
+			if s == "" {
+				return bad("formatted as the empty text")
+			}
+			for _, e := range v.A {
+				if e.K == bStr && !strings.Contains(s, e.S) {
+					return bad("element " + strconv.Quote(e.S) + " does not appear in the text")
+				}
+				if e.K == bBool && !strings.Contains(s, strconv.FormatBool(e.B)) {
+					return bad("element " + strconv.FormatBool(e.B) + " does not appear in the text")
+				}
+			}
+			for k := range v.M {
+				if !strings.Contains(s, k) {
+					return bad("key " + strconv.Quote(k) + " does not appear in the text")
+				}
 			}
 		}
 	case pBool:
